@@ -5,11 +5,21 @@ package main
 // chained, on empty and pre-filled destinations, with faults injected into the destination.
 // Model: lean/FitModel/Writer.lean; driver: lean/Driver/Writer.lean.
 //
-//	wr  k=<plain|at|seek|both> bs=<n> m=<b|s> a=<arch> h=<hdropt> l=<lmt> pv=<n> v=<0|1> pre=<hex|-> f=<k.j,k.j…|-> c=<0|1> <files…>
+//	wr  k=<plain|at|seek|both> bs=<n> m=<b|s> a=<arch> h=<hdropt> l=<lmt> pv=<n> v=<0|1> pre=<hex|-> [pos=<n>] f=<k.j,k.j…|-> c=<0|1> <files…>
 //	    one run. m: b = Encoder.Encode per file; c = Encoder.EncodeWithContext (background context) per file;
 //	    s = StreamEncoder.WriteMessage per message + SequenceCompleted per file.
 //	    v=1: a stateful, transforming message validator (wrValidator below) instead of the pass-through one.
-//	    f: the k-th operation on the destination fails after taking at most j bytes. c=1: keep calling after an error.
+//	    rs=1|2: the encoder is NOT new: it was first used on another (write-at) destination — 1: a complete sequence,
+//	    2: an interrupted one (stream: a message without SequenceCompleted; batch: an Encode that failed half-way) — and then
+//	    handed the destination with Reset(w, opts…). The model's answer is that of a new encoder: Reset = New.
+//	    ap=1: the destination behaves like an *os.File opened with O_APPEND: every Write lands at the END whatever the
+//	    position is (third caveat of encoder.New: "behavior not specified"; kinds plain/seek/both; properties n/a). The model's
+//	    answer: the same operations, replayed with Dest.runAppend.
+//	    pos: where the pre-filled destination is positioned (default: at its end, the documented use; anything else is the
+//	    caveat "seek to the end first" — model and code must still agree on what gets written, the properties are n/a).
+//	    f: the k-th operation on the destination fails after taking at most j bytes (entry k.j) or — breaking io.Writer's
+//	    contract — takes at most j bytes and returns NO error (entry k<s>j, e.g. 3s5; model: FitModel/WriterShort.lean; the
+//	    property predicates do not count it as a fault). c=1: keep calling after an error.
 //	    → r=<result per API call> hit=<index of the call in which each fault fired> log=<destination operations> out=<hex> ci=<CheckIntegrity of out>
 //	wrx …same, no f=…   sweep: the run is repeated with one fault at every operation k of the fault-free run and
 //	    j ∈ {0, 1, len-1, len} (a seek: j = 0); each entry is the crash state "operations before k took effect, j bytes of operation k"
@@ -61,6 +71,8 @@ type wrDest struct {
 	pos    int64
 	nops   int
 	faults map[int]int
+	shorts map[int]int // operation number → bytes taken WITHOUT an error being returned
+	app    bool        // O_APPEND: writes land at the end
 	log    []string
 	fired  []int // operation numbers at which a fault fired
 	raw    []wrRawOp
@@ -68,8 +80,8 @@ type wrDest struct {
 
 // wrReplay: the content after the first k operations of ops took effect in full and j bytes of operation k
 // (a crash of the destination at that point), starting from pre
-func wrReplay(pre []byte, ops []wrRawOp, k, j int) []byte {
-	d := &wrDest{buf: append([]byte(nil), pre...), pos: int64(len(pre))}
+func wrReplay(pre []byte, pos int, ops []wrRawOp, k, j int) []byte {
+	d := &wrDest{buf: append([]byte(nil), pre...), pos: int64(pos)}
 	for i := 0; i <= k && i < len(ops); i++ {
 		op := ops[i]
 		p := op.p
@@ -112,8 +124,27 @@ func (d *wrDest) fault() (int, bool) {
 	return j, ok
 }
 
+// short: is the operation about to be issued one that takes only j bytes and returns nil?
+func (d *wrDest) short() (int, bool) {
+	j, ok := d.shorts[d.nops]
+	if ok {
+		d.nops++
+	}
+	return j, ok
+}
+
 func (d *wrDest) write(p []byte) (int, error) {
 	d.raw = append(d.raw, wrRawOp{'w', append([]byte(nil), p...), 0})
+	if d.app {
+		d.pos = int64(len(d.buf))
+	}
+	if j, sh := d.short(); sh {
+		t := min(j, len(p))
+		d.store(d.pos, p[:t])
+		d.pos += int64(t)
+		d.log = append(d.log, fmt.Sprintf("w%d:%d", len(p), t))
+		return t, nil
+	}
 	if j, bad := d.fault(); bad {
 		t := min(j, len(p))
 		d.store(d.pos, p[:t])
@@ -129,6 +160,12 @@ func (d *wrDest) write(p []byte) (int, error) {
 
 func (d *wrDest) writeAt(p []byte, off int64) (int, error) {
 	d.raw = append(d.raw, wrRawOp{'a', append([]byte(nil), p...), off})
+	if j, sh := d.short(); sh {
+		t := min(j, len(p))
+		d.store(off, p[:t])
+		d.log = append(d.log, fmt.Sprintf("a%d@%d:%d", len(p), off, t))
+		return t, nil
+	}
 	if j, bad := d.fault(); bad {
 		t := min(j, len(p))
 		d.store(off, p[:t])
@@ -181,8 +218,8 @@ func (w wrBoth) Write(p []byte) (int, error)            { return w.d.write(p) }
 func (w wrBoth) WriteAt(p []byte, o int64) (int, error) { return w.d.writeAt(p, o) }
 func (w wrBoth) Seek(o int64, wh int) (int64, error)    { return w.d.seek(o, wh) }
 
-func wrNewDest(kind string, pre []byte, faults map[int]int) (io.Writer, *wrDest) {
-	d := &wrDest{buf: append([]byte(nil), pre...), pos: int64(len(pre)), faults: faults}
+func wrNewDest(kind string, pre []byte, pos int, faults map[int]int) (io.Writer, *wrDest) {
+	d := &wrDest{buf: append([]byte(nil), pre...), pos: int64(pos), faults: faults}
 	switch kind {
 	case "at":
 		return wrAt{d}, d
@@ -229,7 +266,11 @@ type wrCfg struct {
 	pv               int
 	v                int
 	pre              []byte
+	pos              int // position of the destination when the encoder gets it
+	reuse            int // rs=
+	app              bool // ap=1
 	faults           map[int]int
+	shorts           map[int]int
 	cont             bool
 	files            []wFile
 	faultTokens      string
@@ -245,7 +286,7 @@ func wrParse(args []string) (*wrCfg, bool) {
 		return nil, false
 	}
 	c := &wrCfg{kind: kv["k"], mode: kv["m"], bs: atoi(kv["bs"]), arch: atoi(kv["a"]), hopt: atoi(kv["h"]), lmt: atoi(kv["l"]),
-		pv: atoi(kv["pv"]), v: atoi(kv["v"]), cont: kv["c"] == "1", files: files, raw: kv, fileToks: rest, faults: map[int]int{}}
+		pv: atoi(kv["pv"]), v: atoi(kv["v"]), reuse: atoi(kv["rs"]), app: kv["ap"] == "1", cont: kv["c"] == "1", files: files, raw: kv, fileToks: rest, faults: map[int]int{}, shorts: map[int]int{}}
 	if p := kv["pre"]; p != "" && p != "-" {
 		b, err := hex.DecodeString(p)
 		if err != nil {
@@ -253,19 +294,40 @@ func wrParse(args []string) (*wrCfg, bool) {
 		}
 		c.pre = b
 	}
+	if c.app && c.kind == "at" {
+		return nil, false
+	}
+	c.pos = len(c.pre)
+	if p, ok := kv["pos"]; ok {
+		c.pos = atoi(p)
+		if c.pos < 0 || c.pos > len(c.pre) {
+			return nil, false
+		}
+	}
 	if f := kv["f"]; f != "" && f != "-" {
 		c.hasFaultArgument = true
 		for _, e := range strings.Split(f, ",") {
 			a, b, ok := strings.Cut(e, ".")
+			short := false
+			if !ok {
+				a, b, ok = strings.Cut(e, "s")
+				short = true
+			}
 			k, err1 := strconv.Atoi(a)
 			j, err2 := strconv.Atoi(b)
 			if !ok || err1 != nil || err2 != nil || k < 0 || j < 0 {
 				return nil, false
 			}
-			if _, dup := c.faults[k]; dup {
+			_, dup1 := c.faults[k]
+			_, dup2 := c.shorts[k]
+			if dup1 || dup2 {
 				return nil, false
 			}
-			c.faults[k] = j
+			if short {
+				c.shorts[k] = j
+			} else {
+				c.faults[k] = j
+			}
 		}
 	}
 	return c, true
@@ -292,7 +354,7 @@ func wrErrClass(err error) string {
 	switch {
 	case err == nil:
 		return "ok"
-	case errors.Is(err, errWrInjected):
+	case errors.Is(err, errWrInjected), errors.Is(err, io.ErrShortWrite): // the latter: bufio's verdict on a short count without error
 		return "err"
 	case errors.Is(err, errWrRejected):
 		return "ev"
@@ -315,8 +377,13 @@ type wrOut struct {
 }
 
 // wrRun runs one configuration with the given faults. bad = the operation cannot be built (bad-op).
-func wrRun(c *wrCfg, faults map[int]int) (o wrOut, bad bool) {
-	w, d := wrNewDest(c.kind, c.pre, faults)
+func wrRun(c *wrCfg, faults map[int]int) (o wrOut, bad bool) { return wrRunS(c, faults, nil) }
+
+// wrRunS: as wrRun, with the operations of `shorts` answered (n < len, nil)
+func wrRunS(c *wrCfg, faults, shorts map[int]int) (o wrOut, bad bool) {
+	w, d := wrNewDest(c.kind, c.pre, c.pos, faults)
+	d.shorts = shorts
+	d.app = c.app
 	call := func(f func() error) bool {
 		before := len(d.fired)
 		err := f()
@@ -327,7 +394,22 @@ func wrRun(c *wrCfg, faults map[int]int) (o wrOut, bad bool) {
 		return err == nil
 	}
 	if c.mode == "s" {
-		se, err := encoder.NewStream(w, c.options()...)
+		var se *encoder.StreamEncoder
+		var err error
+		if c.reuse > 0 {
+			// a used stream encoder: another destination first, then Reset to this one
+			warmFit, _ := wrWarmFile.toProto(byte(c.arch))
+			se, err = encoder.NewStream(wrAt{&wrDest{}}, c.options()...)
+			if err == nil {
+				_ = se.WriteMessage(&warmFit.Messages[0])
+				if c.reuse == 1 {
+					_ = se.SequenceCompleted()
+				}
+				err = se.Reset(w, c.options()...)
+			}
+		} else {
+			se, err = encoder.NewStream(w, c.options()...)
+		}
 		if err != nil {
 			o.refused = true
 			return o, false
@@ -348,7 +430,20 @@ func wrRun(c *wrCfg, faults map[int]int) (o wrOut, bad bool) {
 			}
 		}
 	} else {
-		enc := encoder.New(w, c.options()...)
+		var enc *encoder.Encoder
+		if c.reuse > 0 {
+			// a used encoder: another destination first (rs=2: one that fails during the records), then Reset to this one
+			warmFit, _ := wrWarmFile.toProto(byte(c.arch))
+			wd := &wrDest{}
+			if c.reuse == 2 {
+				wd.faults = map[int]int{1: 3}
+			}
+			enc = encoder.New(wrAt{wd}, append(c.options(), encoder.WithWriteBufferSize(0))...)
+			_ = enc.Encode(warmFit)
+			enc.Reset(w, c.options()...)
+		} else {
+			enc = encoder.New(w, c.options()...)
+		}
 		for _, f := range c.files {
 			fit, ok := f.toProto(byte(c.arch))
 			if !ok {
@@ -366,6 +461,11 @@ func wrRun(c *wrCfg, faults map[int]int) (o wrOut, bad bool) {
 	o.log, o.out, o.raw = d.log, d.buf, d.raw
 	return o, false
 }
+
+// wrWarmFile: what a reused encoder wrote to its first destination (rs=)
+var wrWarmFile = wFile{msgs: []wMsg{{num: 18, fields: []wField{
+	{num: 253, bt: int(basetype.Uint32), tag: int(proto.TypeUint32), data: []byte{0x40, 0x41, 0x42, 0x43}},
+	{num: 1, bt: int(basetype.Uint8), tag: int(proto.TypeUint8), data: []byte{7}}}}}}
 
 func wrCheck(b []byte) string {
 	n, err := decoder.New(bytes.NewReader(b)).CheckIntegrity()
@@ -398,7 +498,7 @@ func execWr(args []string) string {
 	if !ok {
 		return "bad-op"
 	}
-	o, bad := wrRun(c, c.faults)
+	o, bad := wrRunS(c, c.faults, c.shorts)
 	if bad {
 		return "bad-op"
 	}
@@ -430,7 +530,7 @@ func wrLogLen(e string) int {
 
 func execWrX(args []string) string {
 	c, ok := wrParse(args)
-	if !ok || c.hasFaultArgument {
+	if !ok || c.hasFaultArgument || c.app {
 		return "bad-op"
 	}
 	base, bad := wrRun(c, nil)
@@ -460,7 +560,7 @@ func execWrX(args []string) string {
 				sb.WriteString("/" + hex.EncodeToString(o.out))
 			}
 			// the faulted run must have left exactly the crash state "first k operations of the healthy run, j bytes of the next"
-			if !bytes.Equal(o.out, wrReplay(c.pre, base.raw, k, j)) || len(o.log) != k+1 {
+			if !bytes.Equal(o.out, wrReplay(c.pre, c.pos, base.raw, k, j)) || len(o.log) != k+1 {
 				sb.WriteString("/not-a-crash-prefix")
 			}
 			n++
@@ -503,7 +603,7 @@ func execWrC(args []string) string {
 			}
 			for _, bs := range wrSizes {
 				cc := *c
-				cc.kind, cc.mode, cc.bs = kind, mode, bs
+				cc.kind, cc.mode, cc.bs, cc.pos, cc.reuse, cc.app = kind, mode, bs, len(c.pre), 0, false
 				o, bad := wrRun(&cc, nil)
 				if bad {
 					return "bad-op"
@@ -695,6 +795,24 @@ func wrPre(rng *Rng, arch byte) string {
 	return "-"
 }
 
+// wrReuse: now and then the encoder is a used one (token " rs=<1|2>", else "")
+func wrReuse(rng *Rng) string {
+	if rng.Intn(5) != 0 {
+		return ""
+	}
+	count("reused-encoder")
+	return fmt.Sprintf(" rs=%d", 1+rng.Intn(2))
+}
+
+// wrPos: now and then a pre-filled destination is NOT positioned at its end (token " pos=<n>", else "")
+func wrPos(rng *Rng, pre string) string {
+	if pre == "-" || rng.Intn(6) != 0 {
+		return ""
+	}
+	count("not-at-end")
+	return fmt.Sprintf(" pos=%d", rng.Intn(len(pre)/2+1))
+}
+
 func genEncWriters(emit func(string), tier string, rng *Rng) {
 	n := 8000
 	if tier == "thorough" {
@@ -724,11 +842,32 @@ func genEncWriters(emit func(string), tier string, rng *Rng) {
 		if rng.Intn(8) == 0 {
 			cont = 1
 		}
-		emit(fmt.Sprintf("wr k=%s bs=%d m=%s %s pre=%s f=- c=%d %s", kind, wrRandSize(rng), mode, g.toks(), pre, cont, strings.Join(wrFileTokens(files), " ")))
+		ap := ""
+		if kind != "at" && rng.Intn(25) == 0 {
+			ap = " ap=1"
+			count("append-mode")
+		}
+		emit(fmt.Sprintf("wr k=%s bs=%d m=%s %s pre=%s%s%s%s f=- c=%d %s", kind, wrRandSize(rng), mode, g.toks(), pre, wrPos(rng, pre), wrReuse(rng), ap, cont, strings.Join(wrFileTokens(files), " ")))
 		count("wr/" + mode + "/" + kind)
 		count(fmt.Sprintf("files=%d", nfiles))
 		if pre != "-" {
 			count("prefilled")
+		}
+		if it%25 == 0 {
+			// directed: the caller's header carries a data size that differs from the real one only ABOVE the low byte
+			// (a header update keyed on a truncated comparison would be skipped) — random-access kinds, batch
+			g3 := wrGenOpts(rng)
+			f3 := wrGenFiles(rng, byte(g3.arch), 1, true, rng.Intn(2) == 0, g3.v1safe(rng))
+			probe := &wrCfg{kind: "plain", mode: "b", bs: 0, arch: g3.arch, hopt: g3.hopt, lmt: g3.lmt, pv: g3.pv, files: f3}
+			if o, bad := wrRun(probe, nil); !bad && len(o.results) == 1 && o.results[0] == "ok" && len(o.out) > 16 {
+				d := uint32(len(o.out) - 16)
+				f3[0].dataSize = d + 256*uint32(1+rng.Intn(3))
+				if d >= 256 && rng.Intn(2) == 0 {
+					f3[0].dataSize = d - 256
+				}
+				emit(fmt.Sprintf("wr k=%s bs=%d m=%s %s pre=- f=- c=0 %s", wrKinds[1+rng.Intn(3)], wrRandSize(rng), []string{"b", "c"}[rng.Intn(2)], g3.toks(), strings.Join(wrFileTokens(f3), " ")))
+				count("datasize-low-byte-equal")
+			}
 		}
 		if it%4 == 0 {
 			// cross-configuration comparison on the implementation itself
@@ -816,7 +955,7 @@ func genEncFaults(emit func(string), tier string, rng *Rng) {
 					kind = "seek"
 				}
 				bs := []int{0, 0, 1, 14, 4096, wrRandSize(rng)}[rng.Intn(6)]
-				emit(fmt.Sprintf("wrx k=%s bs=%d m=%s %s pre=%s c=0 %s", kind, bs, mode, g.toks(), pre, ft))
+				emit(fmt.Sprintf("wrx k=%s bs=%d m=%s %s pre=%s%s%s c=0 %s", kind, bs, mode, g.toks(), pre, wrPos(rng, pre), wrReuse(rng), ft))
 				count("wrx/" + mode + "/" + kind)
 			}
 		}
@@ -842,10 +981,15 @@ func genEncFaults(emit func(string), tier string, rng *Rng) {
 					continue
 				}
 				seen[k] = true
-				fs = append(fs, fmt.Sprintf("%d.%d", k, []int{0, 0, 1, 2, 5, 13, 14, 1000}[rng.Intn(8)]))
+				sep := "."
+				if rng.Intn(6) == 0 { // a destination that breaks the contract: short count, nil error
+					sep = "s"
+					count("short-write-entry")
+				}
+				fs = append(fs, fmt.Sprintf("%d%s%d", k, sep, []int{0, 0, 1, 2, 5, 13, 14, 1000}[rng.Intn(8)]))
 			}
 			cont := rng.Intn(2)
-			emit(fmt.Sprintf("wr k=%s bs=%d m=%s %s pre=%s f=%s c=%d %s", kind, wrRandSize(rng), mode, g.toks(), pre, strings.Join(fs, ","), cont, ft))
+			emit(fmt.Sprintf("wr k=%s bs=%d m=%s %s pre=%s%s%s f=%s c=%d %s", kind, wrRandSize(rng), mode, g.toks(), pre, wrPos(rng, pre), wrReuse(rng), strings.Join(fs, ","), cont, ft))
 			count(fmt.Sprintf("wr-faults/%s/c=%d", mode, cont))
 		}
 	}
